@@ -990,6 +990,12 @@ func runConcSchedules(c *Ctx, c03 bool) error {
 	// witnesses first
 	rep := 0
 	for i, w := range []struct{ tooBig, managed bool }{{false, false}, {true, false}, {true, true}, {false, true}} {
+		if w.tooBig && c28MarkerFixed() {
+			// finding F4 is repaired on this tree: an exact-limit transaction no longer fails at
+			// Commit, so this route into F12 is closed; the ErrBlockedWrites witnesses remain
+			c.Count("f12-toobig-route-closed-by-F4-fix")
+			continue
+		}
 		x, r, err := scenarioF12(c, w.tooBig, w.managed)
 		if err != nil {
 			return err
